@@ -57,6 +57,11 @@ type Options struct {
 	WaitFunc func() time.Duration
 	Peer     notify.Peer
 
+	// RealCluster, when set, starts the instance with the real gossip mesh (memberlist on loopback;
+	// real time only, not inside a bubble). The broadcast recorders are then NOT installed: the
+	// components keep the broadcast functions of the real cluster channels.
+	RealCluster *RealCluster
+
 	// Called (under the component's lock!) with the bytes handed to the broadcast function.
 	OnNflogBroadcast   func(in *Instance, b []byte)
 	OnSilenceBroadcast func(in *Instance, b []byte)
@@ -68,6 +73,19 @@ type Options struct {
 	Log    *Log   // shared event log (created when nil)
 	Script Script // decides the outcome of every delivery attempt (nil = always succeed)
 	Debug  io.Writer
+}
+
+// RealCluster are the gossip options of a real-mesh instance.
+type RealCluster struct {
+	BindAddr       string
+	PeerName       string
+	Peers          []string
+	PeerTimeout    time.Duration
+	GossipInterval time.Duration
+	PushPull       time.Duration
+	ProbeTimeout   time.Duration
+	ProbeInterval  time.Duration
+	SettleTimeout  time.Duration
 }
 
 // Outcome of one scripted delivery attempt.
@@ -293,6 +311,18 @@ func Start(o Options) (*Instance, error) {
 	ao.Logger = discardLogger(o.Debug)
 	ao.Registerer = in.Reg
 	ao.Flagger = featurecontrol.NoopFlags{}
+	if rc := o.RealCluster; rc != nil {
+		ao.ClusterBindAddr = rc.BindAddr
+		ao.ClusterPeerName = rc.PeerName
+		ao.Peers = rc.Peers
+		ao.AllowInsecureAdvertise = true
+		ao.PeerTimeout = rc.PeerTimeout
+		ao.GossipInterval = rc.GossipInterval
+		ao.PushPullInterval = rc.PushPull
+		ao.ProbeTimeout = rc.ProbeTimeout
+		ao.ProbeInterval = rc.ProbeInterval
+		ao.SettleTimeout = rc.SettleTimeout
+	}
 	// app.New is serialised: concurrent construction of several instances in one process races inside
 	// go-openapi on the cached swagger document (outside every property; it would only add race-detector noise)
 	startMu.Lock()
@@ -307,7 +337,9 @@ func Start(o Options) (*Instance, error) {
 		a.Stop(context.Background())
 		return nil, fmt.Errorf("verif hook OnSetup was never reached")
 	}
-	in.installBroadcastRecorders()
+	if o.RealCluster == nil {
+		in.installBroadcastRecorders()
+	}
 	in.Log.Add(Event{T: time.Now(), Kind: "start", Instance: in.Name})
 	return in, nil
 }
